@@ -37,7 +37,8 @@ META = dict(
                'writer.TdmsWriter.open', 'writer.TdmsWriter.close', 'writer.TdmsWriter.__exit__'],
     bounds=dict(quick='skeleton of 2 segments x (one symbolic field out of 30, or a symbolic cut) x source in {path, path+matching index, '
                       'path+index with the symbolic field, caller stream, caller index stream} x API in {read, read_metadata, open-with, '
-                      'open-close-close, open-read-close-read}', thorough='same plus index-only and writer failures'),
+                      'open-close-close, open-read-close-read}; caller-owned io.RawIOBase and io.BufferedReader objects over the well-formed file x API, '
+                      'checked again after the TdmsFile object is dropped and collected', thorough='same plus index-only and writer failures'),
     outside=['kernel descriptors (model of open)', 'several malformed fields at once', 'memmap'],
     stubs=['builtins.open / os.path.isfile inside nptdms: virtual file system with a handle ledger', 'SymStream / SinkStream handles'],
     assumptions=['open() returns a handle that stays open until close() is called on it'],
@@ -157,6 +158,35 @@ class Ledger:
 
 
 SOURCES = ['path', 'path+index', 'path+bad-index', 'stream', 'index-stream', 'index-only-path']
+CALLER_STREAMS = ['raw-stream', 'buffered-stream']       # caller-owned io.RawIOBase / io.BufferedReader objects (concrete bytes)
+
+
+class _RawCaller(io.RawIOBase):
+    """an unbuffered caller-owned stream (what open(path, 'rb', buffering=0) gives)"""
+
+    def __init__(self, data):
+        super().__init__()
+        self._d, self._p = bytes(data), 0
+
+    def readable(self):
+        return True
+
+    def seekable(self):
+        return True
+
+    def readinto(self, b):
+        mv = memoryview(b).cast('B')
+        chunk = self._d[self._p:self._p + len(mv)]
+        mv[:len(chunk)] = chunk
+        self._p += len(chunk)
+        return len(chunk)
+
+    def seek(self, off, whence=0):
+        self._p = off if whence == 0 else (self._p + off if whence == 1 else len(self._d) + off)
+        return self._p
+
+    def tell(self):
+        return self._p
 APIS = ['read', 'read_metadata', 'open-with', 'open-close-close', 'open-read-close-read', 'open-no-close-then-close']
 
 
@@ -169,6 +199,8 @@ def tasks(tier, seed):
             if src in ('index-only-path',) and tier != 'thorough' and fi not in ('cut', 'none', 0, 3, 4):
                 continue
             ts.append(dict(kind='reader', field=fi, source=src))
+    for src in CALLER_STREAMS:
+        ts.append(dict(kind='reader', field='none', source=src))
     ts.append(dict(kind='writer'))
     return ts
 
@@ -242,6 +274,11 @@ def run_task(task):
                 arg = caller
             elif src == 'index-stream':
                 caller = mk_index()
+                arg = caller
+            elif src in CALLER_STREAMS:
+                caller = _RawCaller(sk_data.bytes(None))
+                if src == 'buffered-stream':
+                    caller = io.BufferedReader(caller)
                 arg = caller
             else:
                 led.vfs[PI] = mk_index
@@ -328,6 +365,12 @@ def run_task(task):
                             ctx.fail('read-after-close-returned', api=api, op=what)
                 ctx.note('clean-path' if raised is None else 'parse-error-path')
             if caller is not None:
+                # ... and stays open when the TdmsFile object is dropped (no wrapper whose finaliser closes the caller's stream)
+                import gc
+                tf = ch = None
+                gc.collect()
+                if caller.closed:
+                    ctx.fail('caller-stream-closed', when='after the TdmsFile object was dropped', api=api)
                 ctx.note('caller-stream-left-open')
             ctx.discharged += 1
         finally:
@@ -429,6 +472,10 @@ def replay(art):
         elif src == 'index-stream':
             caller = io.BytesIO(index)
             arg = caller
+        elif src in CALLER_STREAMS:
+            open(p, 'wb').write(data)
+            caller = open(p, 'rb', buffering=0) if src == 'raw-stream' else open(p, 'rb')
+            arg = caller
         else:
             open(p + '_index', 'wb').write(index)
             arg = p + '_index'
@@ -450,8 +497,12 @@ def replay(art):
             lk = lk_on_raise if raised is not None else leaked()
             if lk:
                 return dict(sig=signature(dict(task=task, what='handle-left-open', api=api)), leaked=lk, raised=raised)
-            if caller is not None and caller.closed:
-                return dict(sig=signature(dict(task=task, what='caller-stream-closed', api=api)), raised=raised)
+            if caller is not None:
+                import gc
+                tf = None
+                gc.collect()
+                if caller.closed:
+                    return dict(sig=signature(dict(task=task, what='caller-stream-closed', api=api)), raised=raised)
             return None
         ch = tf['g']['a'] if ('g' in tf and 'a' in tf['g']) else None
         try:
@@ -488,8 +539,19 @@ def replay(art):
                 except Exception:
                     continue
                 return dict(sig=signature(dict(task=task, what='read-after-close-returned', api=api)), op=what)
+        if caller is not None:
+            import gc
+            tf = ch = None
+            gc.collect()
+            if caller.closed:
+                return dict(sig=signature(dict(task=task, what='caller-stream-closed', api=api)), when='after the TdmsFile object was dropped')
         return None
     finally:
+        try:
+            if caller is not None and hasattr(caller, 'fileno'):
+                caller.close()
+        except Exception:
+            pass
         shutil.rmtree(d, ignore_errors=True)
 
 
